@@ -3460,6 +3460,9 @@ impl GatheringTask for StopTask {
                 "Workers take too long to stop ({} ok, {} errors), stopping the main process to sever the link",
                 self.gatherer.ok, self.gatherer.errors
             ));
+            // the failure above is the final answer: do not follow it with an OK
+            server.run_state = ServerState::Stopping;
+            return;
         }
         server.run_state = ServerState::Stopping;
         // POSTCONDITION: shutdown is now committed.
